@@ -109,6 +109,13 @@ func collect(cur protoreflect.Message, path Path, depth int, out *[]Deviation) {
 					}
 					l.Append(v)
 				})
+				if fd.Kind() == protoreflect.MessageKind {
+					// the same element object listed twice (pointer aliasing inside one value)
+					add(fd, "alias-elem0", "dev", func(m protoreflect.Message) {
+						l := m.Mutable(fd).List()
+						l.Append(l.Get(0))
+					})
+				}
 				add(fd, "drop-last", "dev", func(m protoreflect.Message) { l := m.Mutable(fd).List(); l.Truncate(l.Len() - 1) })
 				add(fd, "clear", "dev", func(m protoreflect.Message) { m.Clear(fd) })
 				if fd.Kind() != protoreflect.MessageKind {
